@@ -161,18 +161,22 @@ fn struct_type<'a>(input: &mut &'a [u8]) -> ModalResult<Type<'a>, InputError<&'a
 /// Parse an inline enum type: (variant1, variant2, variant3).
 fn enum_type<'a>(input: &mut &'a [u8]) -> ModalResult<Type<'a>, InputError<&'a [u8]>> {
     literal("(").parse_next(input)?;
-    ws(input)?;
-    // At least one variant: `()` is the empty struct, not an enum without variants.
-    let variant_names: Vec<&str> =
-        separated(1.., field_name, (ws, literal(","), ws)).parse_next(input)?;
+    // At least one variant: `()` is the empty struct, not an enum without variants. The comments
+    // in front of a variant belong to it, so they are not skipped as white space here.
+    let variants: Vec<EnumVariant<'a>> =
+        separated(1.., enum_variant, (ws, literal(","), whitespace_only)).parse_next(input)?;
     ws(input)?;
     literal(")").parse_next(input)?;
 
-    let variants: Vec<EnumVariant<'a>> = variant_names
-        .into_iter()
-        .map(|name| EnumVariant::new(name, &[]))
-        .collect();
     Ok(Type::Enum(List::from(variants)))
+}
+
+/// Parse a variant of an inline enum, with the comments in front of it (like [`field`]).
+fn enum_variant<'a>(input: &mut &'a [u8]) -> ModalResult<EnumVariant<'a>, InputError<&'a [u8]>> {
+    let comments = parse_preceding_comments(input)?;
+    whitespace_only(input)?;
+    let name = field_name(input)?;
+    Ok(EnumVariant::new_owned(name, comments))
 }
 
 /// Parse an inline type (struct or enum).
